@@ -75,5 +75,3 @@ func cmdRun(args []string) {
 	b, _ := json.MarshalIndent(rep, "", " ")
 	fmt.Println(string(b))
 }
-
-func cmdCheck(args []string) int { return 2 }
